@@ -15,6 +15,19 @@ pub fn gens() -> Vec<Gen> {
 
 fn cases(_rng: &mut Rng, sink: &mut dyn FnMut(J) -> bool) {
     let mut n = 0;
+    // claims with empty objects / nested objects and objects in arrays under every fixed strategy,
+    // decoys on: all digests of one credential (payload and disclosure values) pairwise distinct
+    for kind in ["empty_objects", "nested_objects"] {
+        for strategy in ["NoSD", "TopLevel", "AllLevels"] {
+            for (threads, reuse) in [(1usize, true), (2, false)] {
+                n += 1;
+                let alg = ["ES256", "EdDSA", "HS256"][n % 3];
+                if !sink(json!({"threads": threads, "per_thread": 4, "reuse_issuer": reuse, "same_claims": n % 2 == 0, "decoys": true, "format": if n % 2 == 0 { "compact" } else { "json" }, "claims_kind": kind, "strategy": strategy, "alg": alg})) {
+                    return;
+                }
+            }
+        }
+    }
     // one issuer instance, the identical request repeated with the serialization format
     // alternating (Compact, JSON, Compact, ...) or in blocks (C, C, J, J, ...)
     for (threads, per_thread) in [(1usize, 6usize), (2, 10), (1, 40)] {
@@ -53,7 +66,20 @@ fn worker(t: usize, per_thread: usize, reuse: bool, same_claims: bool, decoys: b
     let mut c = Collected { salts: vec![], decoys: vec![], problems: vec![] };
     let mut issuer = sut::new_issuer(alg);
     for i in 0..per_thread {
-        let claims = if same_claims {
+        let (pattern, kind, strategy_name) = {
+            let mut it = pattern.split('|');
+            (it.next().unwrap_or("fixed"), it.next().unwrap_or("std"), it.next().unwrap_or("AllLevels"))
+        };
+        let strategy = match strategy_name {
+            "NoSD" => Strategy::NoSD,
+            "TopLevel" => Strategy::TopLevel,
+            _ => Strategy::AllLevels,
+        };
+        let claims = if kind == "empty_objects" {
+            json!({"iss": "i", "exp": FAR_EXP, "sub": format!("s{}", if same_claims { 0 } else { i }), "e": {}, "arr": [{}, {"k": {}}, [{}]], "o": {"inner": {}, "x": 1}})
+        } else if kind == "nested_objects" {
+            json!({"iss": "i", "exp": FAR_EXP, "sub": format!("s{}", if same_claims { 0 } else { i }), "o": {"p": {"q": {"r": 1}}, "x": 1}, "arr": [{"k": 1}, {"k": 2}, [{"z": 1}]], "b": {"c": 2}})
+        } else if same_claims {
             json!({"iss": "i", "exp": FAR_EXP, "sub": "s", "a": {"b": 1, "c": [true, null]}, "d": "x"})
         } else {
             json!({"iss": "i", "exp": FAR_EXP, "sub": format!("s{t}-{i}"), "a": {"b": i, "c": [true, null]}, "d": "x"})
@@ -65,9 +91,9 @@ fn worker(t: usize, per_thread: usize, reuse: bool, same_claims: bool, decoys: b
             _ => first_format,
         };
         let out = if reuse {
-            sut::issue_on(&mut issuer, &claims, &Strategy::AllLevels, None, decoys, format)
+            sut::issue_on(&mut issuer, &claims, &strategy, None, decoys, format)
         } else {
-            sut::issue(alg, &claims, &Strategy::AllLevels, None, decoys, format)
+            sut::issue(alg, &claims, &strategy, None, decoys, format)
         };
         let s = match out {
             Out::Ok(s) => s,
@@ -99,7 +125,7 @@ fn worker(t: usize, per_thread: usize, reuse: bool, same_claims: bool, decoys: b
                 None => c.problems.push(format!("{whre}: disclosure {dec} has no string salt")),
             }
         }
-        if parts.disclosures.len() != 7 {
+        if kind == "std" && strategy == Strategy::AllLevels && parts.disclosures.len() != 7 {
             c.problems.push(format!("{whre}: {} disclosures, expected 7", parts.disclosures.len()));
         }
         for d in &parts.disclosures {
@@ -129,7 +155,7 @@ pub fn check(case: &J) -> Verdict {
     let mut handles = Vec::new();
     for t in 0..threads {
         let (b, f, a) = (barrier.clone(), format.clone(), alg.clone());
-        let pat = case["format_pattern"].as_str().unwrap_or("fixed").to_string();
+        let pat = format!("{}|{}|{}", case["format_pattern"].as_str().unwrap_or("fixed"), case["claims_kind"].as_str().unwrap_or("std"), case["strategy"].as_str().unwrap_or("AllLevels"));
         handles.push(std::thread::spawn(move || {
             b.wait();
             worker(t, per_thread, reuse, same_claims, decoys, &f, &pat, &a)
